@@ -6,7 +6,7 @@
 set -u
 prop="$1"; wt="$2"; name="$3"; shift 3
 checks="$prop $*"
-src="$wt/mutants_out/$name"
+src="$wt/${MUTDIR:-mutants_out}/$name"
 out="/verif/seeded/$prop-$name"
 log="/tmp/eval_$prop-$name.log"; : > "$log"
 export CARGO_NET_OFFLINE=true
